@@ -39,7 +39,11 @@ def _case(draw, tier):
             "prior": draw(st.sampled_from(["absent", "unref", "ref"])),
             "cks": cks, "cks_algo": draw(gen.algo_spelling()), "size": size,
             "dsize": draw(st.sampled_from([-1, 1, 7])), "flip": draw(st.integers(0, 200)),
-            "kind": draw(st.sampled_from(["str", "path", "file", "bytesio"]))}
+            "kind": draw(st.sampled_from(["str", "path", "file", "bytesio"])),
+            # additional_algorithm (store_object only): absent, the same spelling as the checksum algorithm,
+            # the store algorithm's hashlib name, or any other
+            "add": draw(st.sampled_from(["none", "none", "same-as-cks", "store-algo", "other"])),
+            "add_other": draw(gen.algo_spelling())}
 
 
 def strategy(tier):
@@ -56,14 +60,18 @@ def run_case(case, ctx):
     common_args = {"c": 0, "cks": case["cks"], "cks_algo": case["cks_algo"], "size": case["size"],
                    "dsize": case["dsize"], "flip": case["flip"]}
     if entry == "store":
-        r = run.step(dict({"op": "store", "pid": PID, "kind": case["kind"]}, **common_args))
+        add = {"none": None, "same-as-cks": case["cks_algo"], "store-algo": run.cfg.halgo,
+               "other": case.get("add_other")}[case.get("add", "none")]
+        if case.get("add") == "store-algo" and case["cks"] != "none":
+            common_args["cks_algo"] = run.cfg.halgo      # checksum algorithm == additional == store algorithm
+        r = run.step(dict({"op": "store", "pid": PID, "kind": case["kind"], "add": add}, **common_args))
     else:
         r0 = run.step({"op": "store", "pid": None, "c": 0, "kind": case["kind"]})
         if not is_ok(r0.out):
             return  # storing without a pid failed: C01's business
         r = run.step(dict({"op": "dii"}, **common_args))
     valid = "ok" in r.exp
-    what = f"{entry} prior={prior} cks={case['cks']} algo={case['cks_algo']} size={case['size']} " \
+    what = f"{entry} prior={prior} cks={case['cks']} algo={common_args['cks_algo']} add={case.get('add')} size={case['size']} " \
            f"len={len(run.contents[0])}"
     p = run.outcome_problem(r, check_value=False)
     if p:
